@@ -308,6 +308,14 @@ def replay_chain(ob):
 def targets(tier='quick'):
     R = Registry()
     R.matmul = matmul_hook
+
+    # a conversion / copy of a control superoperator to the library's complex dtype keeps its VALUE (whether the stored array is the
+    # caller's object or a copy is C20's business: arr/store[Control.add_single...]); assumed for np.array / asarray / copy
+    @model
+    def m_same_value(ip, args, kw):
+        return args[0]
+    for nm in ('array', 'asarray', 'copy', 'ascontiguousarray'):
+        R.lib_models['numpy.' + nm] = m_same_value
     T = []
     T.append(Target('ctrl/add[int]', 'control.Control.add_single', scen_add_int, post_add_int, R, PROP, replay=replay_ctrl))
     T.append(Target('ctrl/add[badtype]', 'control.Control.add_single', scen_add_bad, post_add_bad, R, PROP))
